@@ -1462,7 +1462,7 @@ def run_c05(sc):
              "uses_nested_actions": bool(sc.get("uses_nested")), "uses_invoke": bool(sc.get("uses_invoke"))}
     per = {leg: _per_op(r, root) for leg, r in results.items() if leg != "pure"}
     ref_leg = "sync" if "sync" in per else legs[0]
-    ref = per[ref_leg]
+    ref = per.get(ref_leg, {})
     for leg, p in per.items():
         if leg == ref_leg:
             continue
@@ -1499,6 +1499,12 @@ def run_c05(sc):
             vios.append(Violation("C05", "pure-ran-user-action", {}, f"pure API invoked {pr.meta['user_calls']} generated action callables"))
         if pr.meta.get("threads"):
             vios.append(Violation("C05", "pure-started-thread", {}, f"pure API started {pr.meta['threads']} threads"))
+        svc_calls = [r for r in pr.trace if r[K] == "svc-call"]
+        if svc_calls:
+            vios.append(Violation("C05", "pure-ran-service", {}, f"pure API called invoked service {svc_calls[0][5]} ({len(svc_calls)} calls)"))
+        started = [r for r in pr.trace if r[K] == "i-start" and r[4] != root]
+        if started:
+            vios.append(Violation("C05", "pure-started-actor", {}, f"pure API started child interpreter {started[0][4]} ({len(started)} starts)"))
         pure_recs = {r[4]: r for r in pr.trace if r[K] == "pure"}
         for r in pr.trace:
             if r[K] == "pure-input-mutated":
